@@ -56,6 +56,10 @@ type mapLoader struct {
 	docs     map[string]string
 	fail     map[string]bool
 	requests []string
+	// caching: the same *Schema object is handed out for a URI on every request (as a Loader with a cache does),
+	// instead of a fresh decoding per request
+	caching bool
+	cache   map[string]*jsonschema.Schema
 }
 
 func (l *mapLoader) load(u *url.URL) (*jsonschema.Schema, error) {
@@ -67,9 +71,20 @@ func (l *mapLoader) load(u *url.URL) (*jsonschema.Schema, error) {
 	if !ok {
 		return nil, fmt.Errorf("no such document %s", u)
 	}
+	if l.caching {
+		if cs := l.cache[u.String()]; cs != nil {
+			return cs, nil
+		}
+	}
 	var s jsonschema.Schema
 	if err := json.Unmarshal([]byte(text), &s); err != nil {
 		return nil, err
+	}
+	if l.caching {
+		if l.cache == nil {
+			l.cache = map[string]*jsonschema.Schema{}
+		}
+		l.cache[u.String()] = &s
 	}
 	return &s, nil
 }
